@@ -760,7 +760,7 @@ func CreateNode(r io.Reader) (Node, error) {
 	case NodeTypeExtensionNode:
 		node = NewExtensionNode(nil, nil)
 	default:
-		panic(fmt.Sprintf("unknown node type: %v", code))
+		return nil, ErrInvalidEncoding
 	}
 	var ot OriginTracker
 	_ = ot.Read(r)
